@@ -998,6 +998,12 @@ class Grounded(EnvironmentFilter):
             self._memo.append((arg,feedback))
             return feedback
 
+        def __getstate__(self):
+            #a pickled copy starts afresh. Its generator restarts from the seed (see CobaRandom.__reduce__) so
+            #what has been drawn so far must not travel with it, or later draws would repeat the earlier ones.
+            return (None, {'_rng':None, '_goods':self._goods, '_bads':self._bads, '_seed':self._seed,
+                           '_argmax':self._argmax, '_actions':self._actions, '_memo':[]})
+
         def __repr__(self) -> str:
             am = self._argmax
             return f"GroundedFeedback({try_else(lambda:minimize(am),str(am))})"
